@@ -417,6 +417,28 @@ package mast
 //@ modifies W Box.Int@fresh
 //@ ensures nonnil (not (= result 0))
 
+// layers of byte-string and string keys: the layer of the CRC-64/ECMA checksum (crcOf is the
+// uninterpreted checksum function; the table is the package variable crcTable)
+//@ smt (declare-fun crcOf (Bytes) Int)
+//@ smt (assert (forall ((b Bytes)) (! (and (<= 0 (crcOf b)) (< (crcOf b) 18446744073709551616)) :pattern ((crcOf b)))))
+//@ abstract crc64.Checksum (data tab) -> (r)
+//@ pure
+//@ ensures def (= r (crcOf (bs.val data)))
+
+//@ func blobLayer
+//@ uses lay
+//@ tags C14
+//@ pure
+//@ requires bf [C14] (>= branchFactor 2)
+//@ ensures lay [C14] (= result (mod (lay (crcOf (bs.val b)) branchFactor) 256))
+
+//@ func stringLayer
+//@ uses lay
+//@ tags C14
+//@ pure
+//@ requires bf [C14] (>= branchFactor 2)
+//@ ensures lay [C14] (= result (mod (lay (crcOf s) branchFactor) 256))
+
 // the default key order on the built-in integer key types: the sign of the comparison, as a value
 // in {-1,0,1}, for every pair of keys (no difference tricks: they overflow)
 //@ func DefaultKeyCompare$1
@@ -445,6 +467,14 @@ package mast
 //@ ensures uint64 [C14] (=> (and (= (a.tid i) tid.uint64) (not (implements.Key tid.uint64))) (and (= result1 anil) (= result0 (mod (lay (a.val i) branchFactor) 256))))
 //@ ensures int32 [C14] (=> (and (= (a.tid i) tid.int32) (not (implements.Key tid.int32))) (and (= result1 anil) (= result0 (mod (lay (a.val i) branchFactor) 256))))
 //@ ensures uint16 [C14] (=> (and (= (a.tid i) tid.uint16) (not (implements.Key tid.uint16))) (and (= result1 anil) (= result0 (mod (lay (a.val i) branchFactor) 256))))
+
+//@ ensures string [C14] (=> (and (= (a.tid i) tid.string) (not (implements.Key tid.string))) (and (= result1 anil) (= result0 (mod (lay (crcOf (unbox_Bytes (a.val i))) branchFactor) 256))))
+
+//@ func (*Mast).BranchFactor
+//@ tags C14
+//@ pure
+//@ requires nonnil (> m 0)
+//@ ensures def [C14] (= result (Mast.branchFactor H0 m))
 
 //@ func DefaultLayer
 //@ tags C14 C19
